@@ -116,6 +116,13 @@ def run(ctx):
                                        "new 3 r - - -", "keys 3"] + [f"get 3 {hx(k)}" for k in list(history.keys()) + [k2]])
             requests.append((line, len(pre_ops) + 1, obs_a["outs"], obs_a["file"], {"mode": "a+put", **tag}))
             ukvlib.oracle_append(ctx, obs_a, committed, s["session"], (k2, v2), tag)
+            # ---------- (b') one long-lived handle: read session on the crashed file, then an append session ----------
+            ipath.write_bytes(img)
+            obs_ra = ukvlib.observe_read_then_append(ipath, k2, v2, list(history.keys()) + [k2])
+            line = ";".join(pre_ops + [f"cut {len(base) + n}", "new 2 r - - -", "close 2", "reopen 2 a", f"put 2 {hx(k2)} {hx(v2)}",
+                                       "close 2", "new 3 r - - -", "keys 3"] + [f"get 3 {hx(k)}" for k in list(history.keys()) + [k2]])
+            requests.append((line, len(pre_ops) + 1, obs_ra["outs"], obs_ra["file"], {"mode": "r,a+put", **tag}))
+            ukvlib.oracle_append(ctx, obs_ra, committed, s["session"], (k2, v2), {"mode": "r,a+put", **tag})
             ctx.count("images")
         # ---------- (c) second crash: the recovery session (reopen a + 2 puts) dies at every offset ----------
         sub = [0, total // 2, max(total - 3, 0)] if ctx.quick() else list(range(0, total + 1, max(1, total // 12)))
